@@ -61,7 +61,12 @@ def kernels():
                               surface_normals, tri_contains_coplanar_point)
 
     ks = []
-    alg = "first [ring | (f_equal; ring) | (f_equal; [ring | f_equal; ring]) | (f_equal; f_equal; ring)]"
+    # equal up to ring normalisation, also under a square root and with the quotient kept as an atom (so that
+    # harmless rewrites such as `x / 2.0` for `0.5 * x` or a reordered sum under the root still check)
+    alg = ("first [ring | (unfold Rdiv; ring) | "
+           "(repeat match goal with |- context [sqrt ?a] => match goal with |- context [sqrt ?b] => "
+           "tryif constr_eq a b then fail else (replace (sqrt a) with (sqrt b) by (f_equal; ring)) end end; unfold Rdiv; ring) | "
+           "(f_equal; ring) | (f_equal; [ring | f_equal; ring]) | (f_equal; f_equal; ring)]")
     ks.append(Kernel(
         "normals_raw_single", {"t": T1}, lambda t: surface_normals(t, normalize=False),
         "Lemma {T}_ok : forall {vars} : R, {T} ROps {vars} = vlist (surface_normal_raw ROps %s).\n"
